@@ -16,7 +16,7 @@ RULE = ('cases = (expression tree, element type, shape [, destination kind]). Tr
         'destinations on guard pages at byte misalignments. Integer leaf magnitudes are bounded per tree so that no scalar '
         'operation overflows. non-trivial = reference result has >=2 distinct values (bool: both truth values); distinct = case keys.')
 ASSUMPTIONS = ['the scalar C++ expression generated from the same tree is the reference (host libm for math functions)',
-               'drivers are compiled with -ffp-contract=off so that neither side is FMA-contracted; one thorough configuration keeps the default and then judges only exact-regime values',
+               'drivers are compiled with -ffp-contract=off so that neither side is FMA-contracted',
                'min/max are not driven with NaN or (+0,-0) operand pairs',
                'tensor /= floating scalar is judged within 2 ulp (documented reciprocal multiply); non-finite/denormal quotients are not judged there']
 
@@ -266,7 +266,7 @@ def generate(seed, tier):
         for isa in ('scalar', 'sse2', 'sse42', 'avx', 'avx2', 'avx512', 'avx512f'):
             cfgs.append(Cfg(isa, '14', 'O2', extra=off))
             cfgs.append(Cfg(isa, '17', 'O3', extra=off))
-        cfgs += [Cfg('sse2', '14', 'O0', extra=off), Cfg('avx2', '14', 'O2'), Cfg('avx512', '17', 'O2'),
+        cfgs += [Cfg('sse2', '14', 'O0', extra=off), Cfg('avx2', '14', 'O0', extra=off), Cfg('avx512', '17', 'O2', extra=off),
                  Cfg('avx2', '14', 'O2', macros=('FASTOR_USE_VECTORISED_EXPR_ASSIGN',), extra=off)]
         for isa in ('sse2', 'avx2', 'avx512'):
             cfgs.append(Cfg(isa, '17', 'O1', san='asan', extra=off))
